@@ -256,7 +256,13 @@ func (h *hist) reads(repo string) {
 		hm := http.Header{}
 		if it.man {
 			// every Accept list that contains the stored type: comma separated, several lines, parameters
-			switch rng.Intn(4) {
+			switch rng.Intn(7) {
+			case 4: // one header value, bare commas (what strings.Join(types, ",") produces)
+				hd["Accept"] = "application/json," + it.mt + ",text/plain"
+			case 5: // bare commas with parameters
+				hd["Accept"] = "application/x.other;q=0.9," + it.mt + ";q=0.8"
+			case 6: // comma followed by a tab, the stored type last
+				hd["Accept"] = "text/plain,\t" + it.mt
 			case 0:
 				hd["Accept"] = it.mt
 			case 1:
@@ -508,6 +514,23 @@ func runHistory(r *vh.Run, focus string, i int) {
 			}
 		}
 		if len(keep) >= 2 {
+			// ... and one index over some of them, so that a manifest can be a child and have entries of its own
+			in := map[string]bool{}
+			for _, k := range keep {
+				in[k.D] = true
+			}
+			for _, mm := range u.Mans {
+				if mm.Index && mm.Subject == "" && len(mm.Refs) > 0 {
+					all := true
+					for _, c := range mm.Refs {
+						all = all && in[c]
+					}
+					if all {
+						keep = append(keep, mm)
+						break
+					}
+				}
+			}
 			u.Mans = keep
 			if len(u.Tags) > 3 {
 				u.Tags = u.Tags[:3]
